@@ -13,6 +13,7 @@ import numpy as np
 import core
 import gen
 import obs
+import suite
 from checks import c01
 
 MOD = 'checks.c02'
@@ -51,7 +52,12 @@ class _SinglePair:
   pass
 
 
+SUITE_KINDS = ('CallPairs', 'CallTransform')
+
+
 def gen_trace(recipe):
+  if recipe.get('suite'):
+    return suite.regen(recipe, SUITE_KINDS)
   rng = np.random.default_rng(recipe['seed'])
   name = recipe['est']
   tr = gen.training(rng, name, d=recipe['d'])
@@ -118,13 +124,34 @@ def run(ctx):
   ctx.rule = ('MC: MC_Metric view invariants on the integer grid. Conformance: one Views event per fitted model '
               '(17 estimators x sampled options x query kind {integer, training, random off-grid} x preprocessor kind), '
               '8 query pairs incl. identical points, 8-10 representations each; distinct by (estimator, options, '
-              'query kind, preprocessor kind); non-trivial when components_ is non-zero')
+              'query kind, preprocessor kind); non-trivial when components_ is non-zero. Plus: every outermost public call '
+              '(pair_distance/pair_score/score_pairs/decision_function/transform) made by the repository\'s own tests '
+              '(5 test files, recorded by a pytest plugin) validated against the same definitions')
   c01.model_phase(ctx)
   pairs = core.generate(MOD, recipes(ctx))
   core.judge(ctx, *SPEC, pairs, signature_of)
   for recipe, tr in pairs:
     nz = any(v[0] != 0 for row in tr['events'][0]['L'] for v in row)
     ctx.note_case((recipe['est'], str(tr['opts']), recipe['qkind'], recipe['prep'], recipe['d']), nontrivial=nz)
+  # behaviours of the repository's own test suite, validated against the same specification
+  evs, summary = core.record_suite_calls(os.path.join(ctx.work, 'suite'))
+  spairs = suite.traces_from(evs, SUITE_KINDS, 160 if ctx.quick else 0, np.random.default_rng(ctx.seed))
+  if len(spairs) < 50:
+    raise core.MachineryError('only %d traces recorded from the repository test suite (%s)' % (len(spairs), summary))
+  core.judge(ctx, *SPEC, spairs, signature_of, tag='suite')
+  for recipe, tr in spairs:
+    ctx.note_case(('suite', recipe['test']))
+  ctx.extra['suite_traces'] = {'pytest_summary': summary, 'calls_recorded': len(evs), 'tests_validated': len(spairs),
+                               'events_validated': sum(len(t['events']) for _, t in spairs),
+                               'estimators': sorted({r['est'] for r, _ in spairs})}
+  def halve_suite(t):
+    e = t['events'][0]
+    if e['ev'] == 'CallTransform':
+      e['out'] = [[[v[0], v[1] - 1, v[2]] if v[0] else [1, 0, [1]] for v in row] for row in e['out']]
+    else:
+      e['out'] = [[v[0], v[1] - 1, v[2]] if v[0] else [1, 0, [1]] for v in e['out']]
+  sgood = next(t for r, t in spairs if any(v[0] != 0 for row in t['events'][0]['L'] for v in row))
+  core.selftest_binding(ctx, *SPEC, sgood, halve_suite, 'C02.suite_call_', 'suite_output_rescaled')
   t = pairs[0][1]
   ctx.sample({'estimator': t['est'], 'opts': t['opts'], 'views_event_keys': sorted(t['events'][1].keys()),
               'representations': [r['name'] for r in t['events'][1]['reprs']],
